@@ -729,6 +729,12 @@ SRC_THEOREMS = ["v3_source_is_model", "v2_source_is_model", "base3_source", "tem
                 "severity3_source", "severity2_source"]
 
 
+THEOREM_DEF = {"roundUp3": "F3.roundUp", "severity3": "F3.severity", "base3": "F3.Base_Score", "temporal3": "F3.Temporal_Score",
+               "env3": "F3.Environmental_Score", "roundTo1": "F2.roundTo1Decimal", "roundTo2": "F2.roundTo2Decimal",
+               "severity2": "F2.severity", "baseOf2": "F2.Base_score", "base2": "F2.Base_Score", "temporalOf2": "F2.Temporal_score",
+               "temporal2": "F2.Temporal_Score", "env2": "F2.Environmental_Score"}
+
+
 def _split_defs(txt):
     """generated Formulas.lean -> {"F3.roundUp": text, ...}"""
     res, ns, cur, buf = {}, None, None, []
@@ -751,11 +757,14 @@ def run_formulas(prop):
     (go/formulas) and re-check `Props/Src.lean` (source text = model, for every object).  Returns a dict:
       status   'proved'          the translator understood the source and every equality checks: the theorems of this
                                  property are theorems about the source text;
+               'lost-elsewhere'  an equality about a function this property is *not* about no longer checks (so the module
+                                 Props/Src.lean as a whole does not build); the ones this property is about do;
                'not-understood'  the source is outside the translator's subset (a harmless restructuring is enough):
                                  the reference translation is put back, the tie of this run is the correspondence alone;
                'lost'            the translator understood the source but the source is no longer provably the model;
       changed  translated functions whose text differs from the reference translation of the pinned tree;
-      relevant those of them this property is about."""
+      failed   translated functions whose equality with the model no longer checks;
+      relevant those of the failed ones this property is about."""
     src = os.path.join(core.VERIF, "go", "formulas")
     out = os.path.join(core.BUILD, "formulas")
     dst = os.path.join(core.LEAN, "CvssVerif", "Generated", "Formulas.lean")
@@ -769,23 +778,56 @@ def run_formulas(prop):
         core.sh(["go", "build", "-o", out, "."], cwd=src, env=core.GOENV, timeout=300)
         if os.path.exists(dst + ".new"):
             os.remove(dst + ".new")
-        p = core.sh([out, core.REPO, dst + ".new"], timeout=120, check=False)
+        p = core.sh([out, core.REPO, dst + ".new", os.path.join(src, "reference.lean")], timeout=120, check=False)
         txt = p.stdout.strip()
         res["note"] = txt[-1500:]
-        if p.returncode == 0 and txt.endswith("problems=0") and os.path.exists(dst + ".new"):
+        nu = []
+        for line in txt.splitlines():
+            if line.startswith("not-understood:"):
+                nu = line.split(":", 1)[1].split()
+        res["not_understood"] = nu
+        if p.returncode == 0 and txt.endswith("written=true") and os.path.exists(dst + ".new"):
             new = open(dst + ".new").read()
             os.remove(dst + ".new")
             put(new)
             a, b = _split_defs(ref), _split_defs(new)
             res["changed"] = sorted(k for k in set(a) | set(b) if a.get(k) != b.get(k))
-            res["relevant"] = [k for k in res["changed"] if k in FORMULA_DEFS.get(prop, [])]
+            res["failed"], res["relevant"] = [], []
+            mine = FORMULA_DEFS.get(prop, [])
             ok, log = core.build_lean([SRC_MODULE])
             if ok:
-                res["status"] = "proved"
+                # a function outside the translator's subset carries the reference text: nothing is claimed about it
+                res["status"] = "not-understood" if any(k in mine for k in nu) else "proved"
             else:
-                res["status"] = "lost"
-                errs = [l for l in log.splitlines() if "error" in l.lower() and "warning" not in l.lower()]
-                res["note"] = (" | ".join(errs))[:1500]
+                # which equalities no longer check: the errors name lines of Proofs/Formulas.lean, each inside one theorem
+                import re
+                pf = open(os.path.join(core.LEAN, "CvssVerif", "Proofs", "Formulas.lean")).read().splitlines()
+                thm_at = []
+                for i, line in enumerate(pf, 1):
+                    m = re.match(r"theorem (\w+)", line)
+                    if m:
+                        thm_at.append((i, m.group(1)))
+                failed, unmapped = set(), False
+                for l in log.splitlines():
+                    if not l.startswith("error:"):
+                        continue
+                    m = re.search(r"Proofs/Formulas\.lean:(\d+):", l)
+                    if m:
+                        ln = int(m.group(1))
+                        names = [n for (i, n) in thm_at if i <= ln]
+                        if names and names[-1] in THEOREM_DEF:
+                            failed.add(THEOREM_DEF[names[-1]])
+                            continue
+                        unmapped = True
+                    elif "Generated/Formulas.lean" in l or "Props/Src.lean" in l:
+                        unmapped = True
+                if unmapped or not failed:
+                    failed = set(THEOREM_DEF.values())
+                res["failed"] = sorted(failed)
+                res["relevant"] = [k for k in sorted(failed) if k in mine]
+                res["status"] = "lost" if res["relevant"] else ("not-understood" if any(k in mine for k in nu) else "lost-elsewhere")
+                errs = [l for l in log.splitlines() if l.startswith("error:")]
+                res["note"] = (" | ".join(e[:160] for e in errs))[:1500]
             return res
     except core.BuildError as e:
         res["note"] = "go/formulas failed: " + str(e)[-600:]
